@@ -50,7 +50,7 @@ ARENA_FAMILIES = {
         quick=dict(N=5, K=2, BosMode=0, QA=0), thorough=dict(N=6, K=2, BosMode=1, QA=1), props={"C01", "C02", "C05"}, flavours=("slack",)),
     "query1": dict(
         fns=["strnlen_s", "wcsnlen_s", "strisalphanumeric_s", "strisascii_s", "strisdigit_s", "strishex_s", "strislowercase_s",
-             "strismixedcase_s", "strisuppercase_s", "strchr_s", "strrchr_s", "strfirstchar_s", "strlastchar_s", "memchr_s", "memrchr_s"],
+             "strismixedcase_s", "strisuppercase_s", "strchr_s", "strrchr_s", "strfirstchar_s", "strlastchar_s", "memchr_s", "memrchr_s", "strispassword_s"],
         quick=dict(N=6, K=2, BosMode=0, QA=1), thorough=dict(N=8, K=3, BosMode=1, QA=1), props={"C01", "C02", "C05", "C10"}, flavours=("slack",)),
     "xform": dict(
         fns=["strtolowercase_s", "strtouppercase_s", "wcslwr_s", "wcsupr_s", "strljustify_s", "strremovews_s", "strnterminate_s"],
